@@ -145,6 +145,18 @@ def gen_message(rng, idx=0):
     if shape.startswith("mixed") or shape == "atts-only":
         k = rng.choice([1, 1, 2, 3]) if shape != "mixed-plain" or rng.random() < 0.8 else 0
         for _ in range(k):
+            if rng.random() < 0.2:
+                # "forward as attachment": another message attached as message/rfc822 (single part or multipart)
+                inner = EmailMessage(policy=policy.default.clone(linesep="\n"))
+                inner["From"], inner["To"], inner["Subject"] = "inner@x.org", "t@x.org", rng.choice(["inner message", "Re: inner", "x" * rng.randrange(1, 9)])
+                inner["Date"] = "Mon, 01 Jan 2024 10:00:00 +0000"
+                inner.set_content(rng.choice(["inner body text\nsecond line\n", "short\n", "inner " * rng.randrange(1, 7) + "\n"]))
+                if rng.random() < 0.5:
+                    inner.add_alternative("<p>inner html</p>", subtype="html")
+                fname = rng.choice(["forwarded.eml", "original message.eml"])
+                m.add_attachment(inner, filename=fname)
+                atts.append((fname, "message/rfc822", inner.as_bytes()))
+                continue
             name, mt, st, data = rng.choice(DOCS)
             if mt == "text":
                 # keep the exact bytes: attach as bytes with an explicit text type
@@ -282,6 +294,8 @@ def compare(result, t, kind):
     # 7bit bodies altogether (iso-2022-jp stays as escape sequences); reported under `lib:` and not attributed to the glue
     lib = kind == "eml" and (t.get("shape") == "unknown-charset" or (t.get("charset") == "iso-2022-jp" and t.get("cte") == "7bit"))
     pre = "lib:mailparser:" if lib else ""
+    if any(mt_ == "message/rfc822" for (_n, mt_, _d) in t["attachments"]):
+        pre = "known:attached-message:"        # recorded finding: the text of an attached message leaks into the bodies
     chk(pre + "body_plain", _norm_text(t["plain"]), _norm_text(result.body_plain))
     chk(pre + "body_html", _norm_text(t["html"]), _norm_text(result.body_html))
     got = [(a.filename, a.mime_type, a.data.getvalue()) for a in result.attachments]
@@ -415,7 +429,8 @@ def differential(seed=0, n=120, stop_at=None):
                     add(f"agree:{f}", {"raw": raw.decode("latin-1"), "eml": _addr_list(getattr(a, f)), "mbox": _addr_list(getattr(b, f))})
             if (a.from_email.name, a.from_email.address) != (b.from_email.name, b.from_email.address):
                 add("agree:from_email", {"raw": raw.decode("latin-1"), "eml": str(a.from_email), "mbox": str(b.from_email)})
-            if (t.get("charset"), t.get("cte")) == ("iso-2022-jp", "7bit") or t.get("shape") == "unknown-charset":
+            if (t.get("charset"), t.get("cte")) == ("iso-2022-jp", "7bit") or t.get("shape") == "unknown-charset" \
+                    or any(mt_ == "message/rfc822" for (_n, mt_, _d) in t["attachments"]):
                 pass
             elif _norm_text(a.body_plain) != _norm_text(b.body_plain) or _norm_text(a.body_html) != _norm_text(b.body_html):
                 add("agree:body", {"raw": raw.decode("latin-1"), "eml": _short(a.body_plain), "mbox": _short(b.body_plain)})
@@ -583,6 +598,31 @@ def check_eml_dates():
             ok = False
         if not ok:
             return {"target": "eml_email_extractor.py::_read_eml_format", "inputs": {"Date": d}, "expected": parsedate_to_datetime(d).isoformat() + " (same instant)", "observed": got}
+    return None
+
+
+def check_eml_attachments():
+    """.eml: every attachment of the message is returned, in order, with name, type and exact bytes.  Systematic (not sampled):
+    every generated document (0-byte, binary, text in a foreign charset, non-file-safe names, ...) alone and next to its
+    neighbour, with and without a text body in front."""
+    from email.message import EmailMessage
+    from email import policy
+    groups = [[d] for d in DOCS] + [[DOCS[i], DOCS[(i + 1) % len(DOCS)]] for i in range(len(DOCS))]
+    for with_body in (True, False):
+        for docs in groups:
+            m = EmailMessage(policy=policy.default.clone(linesep="\n"))
+            m["From"], m["To"], m["Subject"], m["Date"] = "a@x.org", "b@x.org", "attachments", "Mon, 01 Jan 2024 10:00:00 +0000"
+            if with_body:
+                m.set_content("body\n")
+            for (name, mt, st, data) in docs:
+                m.add_attachment(data, maintype=mt, subtype=st, filename=name)
+            raw = m.as_bytes()
+            exp = [(name, f"{mt}/{st}", data) for (name, mt, st, data) in docs]
+            res = run_eml(raw)
+            got = [(a.filename, a.mime_type, a.data.getvalue()) for r in res for a in r.attachments]
+            if got != exp:
+                return {"target": "eml_email_extractor.py::_read_eml_format", "inputs": {"message": raw.decode("latin-1")},
+                        "expected": _short([(n, t_, len(d), d[:40]) for n, t_, d in exp]), "observed": _short([(n, t_, len(d), d[:40]) for n, t_, d in got])}
     return None
 
 
@@ -826,7 +866,7 @@ def check_msg_mapping():
     for body, want_plain, want_html in (("plain body text", "plain body text", ""), ("<html><body><p>html body</p></body></html>", None, "<html><body><p>html body</p></body></html>")):
         class Stub:
             def __init__(self, stream):
-                self.subject, self.message_id, self.sent_date = "  the subject ", "<mid@x.org>", "Mon, 01 Jan 2024 10:00:00 +0200"
+                self.subject, self.message_id, self.sent_date = "  the  subject\u00a0x\ty ", "<mid@x.org>", "Mon, 01 Jan 2024 10:00:00 +0200"
                 self.sender, self.to, self.cc, self.bcc, self.reply_to = "S <s@x.org>", "A <a@x.org>; A2 <a2@x.org>", "C <c@x.org>", "B <b@x.org>", "R <r@x.org>"
                 self.body = body
         real = msg.MsOxMessage
@@ -842,7 +882,7 @@ def check_msg_mapping():
         r = res[0]
         got = {"subject": r.subject, "message_id": r.metadata.message_id, "date": r.metadata.date, "from": (r.from_email.name, r.from_email.address),
                "to": _addr_list(r.to_emails), "cc": _addr_list(r.to_cc), "bcc": _addr_list(r.to_bcc), "html": r.body_html}
-        want = {"subject": "the subject", "message_id": "<mid@x.org>", "date": "2024-01-01T10:00:00+02:00", "from": ("S", "s@x.org"),
+        want = {"subject": "the  subject\u00a0x\ty", "message_id": "<mid@x.org>", "date": "2024-01-01T10:00:00+02:00", "from": ("S", "s@x.org"),
                 "to": [("A", "a@x.org"), ("A2", "a2@x.org")], "cc": [("C", "c@x.org")], "bcc": [("B", "b@x.org")], "html": want_html}
         if want_plain is not None:
             got["plain"], want["plain"] = r.body_plain, want_plain
@@ -954,6 +994,46 @@ def w_folded_subject(kind):
     return got != "part one part two", {"message": raw.decode()}, "subject == 'part one part two' (RFC 5322 2.2.3 unfolding)", {"subject": got}
 
 
+WS_SUBJECTS = ["Re:  Q4  figures", "a\tb", "prix\u00a0: 10\u202f000 \u20ac", "\u5168\u89d2\u3000\u30b9\u30da\u30fc\u30b9", "thin\u2009space  and  runs", "x  ", "  y"]
+
+
+def check_subjects(kind):
+    """The subject is the decoded Subject header: white space that is CONTENT (runs of blanks, a tab, NBSP / narrow NBSP /
+    thin / ideographic space) is kept, only the ends are stripped.  Systematic: every generator subject and every
+    white-space subject, written by the stdlib generator (RFC 2047 words where needed) and as a legacy Header in utf-8 /
+    a national charset."""
+    from email.message import EmailMessage
+    from email.header import Header
+    from email import policy
+    raws = []
+    for subj in SUBJECTS + WS_SUBJECTS:
+        m = EmailMessage(policy=policy.default.clone(linesep="\n"))
+        m["From"], m["To"], m["Date"] = "a@x.org", "b@x.org", "Mon, 01 Jan 2024 10:00:00 +0000"
+        m["Subject"] = subj
+        m.set_content("body\n")
+        raw = m.as_bytes()
+        import email as _email
+        back = _email.message_from_bytes(raw, policy=policy.default)["Subject"]
+        if back is not None and str(back).strip() == subj.strip():        # otherwise a generator artefact, not ground truth
+            raws.append((raw, subj))
+        for cs in ("utf-8", "iso-8859-1", "shift_jis"):
+            if not _encodable(subj, cs) or not subj.strip() or len(subj) > 60:
+                continue
+            try:
+                h = Header(subj, cs).encode()
+            except Exception:  # noqa
+                continue
+            if "\n" in h:
+                continue
+            raws.append((_simple(h.encode("ascii")), subj))
+    for raw, subj in raws:
+        res = run_eml(raw) if kind == "eml" else run_mbox(mbox_bytes([raw]))
+        got = [r.subject for r in res]
+        if got != [subj.strip()]:
+            return {"target": "subject", "inputs": {"message": raw.decode("latin-1"), "kind": kind}, "expected": [subj.strip()], "observed": got}
+    return None
+
+
 def w_folded_ids():
     raw = b"From: a@x.org\nSubject: s\n" + D0 + b"Message-ID:\n <abc@x.org>\nIn-Reply-To:\n <parent@x.org>\n\nbody\n"
     r = run_mbox(mbox_bytes([raw]))[0]
@@ -983,8 +1063,13 @@ WITNESSES = [
     ("every-attachment-is-returned", w_mbox_attachments),
     ("get_body_content/", w_disposition),
     ("_read_eml_format/raises", w_eml_no_from),
+    ("_read_eml_format/inv-init#attachments", _w(check_eml_attachments)),
+    ("_read_eml_format/inv-preserve#attachments", _w(check_eml_attachments)),
+    ("_read_eml_format/ensures#every-attachment", _w(check_eml_attachments)),
     ("decode_header_value/ensures", w_unfold_fn),
     ("_read_eml_format/ensures#subject", lambda: w_folded_subject("eml")),
+    ("_read_eml_format/ensures#subject", _w(lambda: check_subjects("eml"))),
+    ("parse_email_message/ensures#subject", _w(lambda: check_subjects("mbox"))),
     ("parse_email_message/ensures#message_id", w_folded_ids),
     ("parse_email_message/ensures#in_reply_to", w_folded_ids),
 ]
@@ -998,7 +1083,28 @@ def w_missing_standard_types():
     return (r is not None, (r or {}).get("inputs"), (r or {}).get("expected"), (r or {}).get("observed"))
 
 
-KNOWN = {"F21-mbox-no-attachments": w_mbox_attachments, "C16-folded-address-headers": w_folded_address_headers,
+def w_attached_message_leak():
+    """A message forwarded as attachment (message/rfc822, Content-Disposition: attachment): its text is not the outer message's body."""
+    from email.message import EmailMessage
+    from email import policy
+    pol = policy.default.clone(linesep="\n")
+    inner = EmailMessage(policy=pol)
+    inner["From"], inner["Subject"], inner["Date"] = "in@x.org", "inner", "Mon, 01 Jan 2024 10:00:00 +0000"
+    inner.set_content("INNER PLAIN\n")
+    inner.add_alternative("<p>INNER HTML</p>", subtype="html")
+    m = EmailMessage(policy=pol)
+    m["From"], m["Subject"], m["Date"] = "a@x.org", "fwd", "Mon, 01 Jan 2024 10:00:00 +0000"
+    m.set_content("outer plain body\n")
+    m.add_attachment(inner, filename="forwarded.eml")
+    raw = m.as_bytes()
+    r = run_mbox(mbox_bytes([raw]))[0]
+    e = run_eml(raw)[0]
+    got = {"mbox": (r.body_plain, r.body_html), "eml": (e.body_plain, e.body_html)}
+    want = {"mbox": ("outer plain body", ""), "eml": ("outer plain body", "")}
+    return got != want, {"message": raw.decode("latin-1")}, want, got
+
+
+KNOWN = {"C16-attached-message-body-leak": w_attached_message_leak, "F21-mbox-no-attachments": w_mbox_attachments, "C16-folded-address-headers": w_folded_address_headers,
          "C16-standard-mime-types-missing": w_missing_standard_types}
 RECORDED_SHAPES = ("folded-quoted-names",)       # legacy variants that only restate a recorded finding
 
@@ -1059,7 +1165,7 @@ def find(req):
 def _recorded(cat):
     """Categories that are not evidence against the glue: a recorded finding (mbox results carry no attachments), decoding
     done by the library (`lib:`), artefacts of the stdlib generator (`~`)."""
-    return cat in ("mbox:attachments", "agree:attachments") or ":lib:" in cat or cat.startswith(("lib:", "~"))
+    return cat in ("mbox:attachments", "agree:attachments") or ":lib:" in cat or ":known:" in cat or cat.startswith(("lib:", "~", "known:"))
 
 
 def rerun(stored):
